@@ -287,7 +287,7 @@ impl<'a> Runner<'a> {
         if !(i.is_handshake_finished() && r.is_handshake_finished()) {
             return Err("handshake did not finish".into());
         }
-        let ks = i.dangerously_get_raw_split();
+        let ks = catch_unwind(AssertUnwindSafe(|| i.dangerously_get_raw_split())).map_err(|_| "panic in dangerously_get_raw_split".to_string())?;
         if convert {
             let (ei, er) = if stateful {
                 (
